@@ -9,5 +9,5 @@ CONSTANTS
   MaxSa = 0
   Gates = FALSE
 VIEW MCView
-INVARIANTS ResumeExact IdsDense IdStable StoreBeforeDeliver CompleteAtEnd CompleteAtRest FinalObtainable RefusedOnlyOnConflict ResponseOnOwnExchange NestedRouting NoCrossSession RoutingEntryLifecycle LockDiscipline
+INVARIANTS ResumeExact IdsDense IdStable StoreBeforeDeliver CompleteAtEnd CompleteAtRest FinalObtainable RefusedOnlyOnConflict ResponseOnOwnExchange NestedRouting NoCrossSession RoutingEntryLifecycle LockDiscipline SdkEnabledExact
 CHECK_DEADLOCK FALSE
